@@ -7,6 +7,7 @@ R = "crates/parser/src/resource_table.rs"
 X = "crates/parser/src/text_table.rs"
 
 TRUSTED = {
+    r"fn vp_token_text": "O9: Token::to_string() (Display via the string table) outlined; its text is text_bytes(token.text)",
     r"fn vp_get_text": "O9: resource_table::get_str_value(id).unwrap() outlined; its text is an arbitrary byte string text_bytes(id)",
     r"fn vp_comment_matches": "O9: COMMENT_REGEX.captures_iter outlined; assumed: matches are in bounds, non-empty, ordered, non-overlapping (regex crate contract)",
     r"fn vp_slice": "O9: &text[a..b] outlined; assumed: byte sub-range (char-boundary panics not modelled)",
@@ -97,17 +98,42 @@ def build(ctx, res):
     f.replace("            doc_comment_table::insert(path, line, text);\n        }", "            vp_doc_insert(path, line, text);\n        } }", rule="O9 + O10 let-chain split")
     f.spec(POST)
     add(f)
+    # Token::end_line / end_column: position of the token's last character
+    vf.raw("impl Token {", "impl")
+    e = t.item("fn", "end_line", impl="Token")
+    e.name_return("r")
+    e.replace("self.to_string()", "vp_token_text(self)", rule="O9")
+    e.replace("text.matches('\\n').count()", "vp_count_nl(&text)", rule="O1")
+    e.spec("    requires self.line + text_bytes(self.text).len() < 0x7fff_ffff,\n"
+           "    ensures r == self.line + count_nl(text_bytes(self.text), 0, text_bytes(self.text).len() as int),")
+    e.at_start("        proof { lemma_chars_le(text_bytes(self.text), 0, text_bytes(self.text).len() as int); }")
+    add(e, "Token::end_line")
+    e = t.item("fn", "end_column", impl="Token")
+    e.name_return("r")
+    e.replace("self.to_string()", "vp_token_text(self)", rule="O9")
+    e.replace("text.matches('\\n').count()", "vp_count_nl(&text)", rule="O1")
+    e.sub(r"text\.split\('\\n'\)\s*\.next_back\(\)\s*\.map\(\|x\| x\.chars\(\)\.count\(\) as u32\)\s*\.unwrap\(\)", "(vp_char_count(vp_last_line(&text)) as u32)", count=1, rule="O3+O2")
+    e.replace("text.chars().count()", "vp_char_count(&text)", rule="O2")
+    e.spec("    requires self.column + text_bytes(self.text).len() < 0x7fff_ffff, self.column + chars_in(text_bytes(self.text), 0, text_bytes(self.text).len() as int) >= 1,\n"
+           "    ensures ({ let b = text_bytes(self.text); let n = b.len() as int;\n"
+           "        r == if count_nl(b, 0, n) > 0 { chars_in(b, line_start(b, n), n) as int } else { self.column + chars_in(b, 0, n) - 1 } }),")
+    e.at_start("        proof { let b = text_bytes(self.text); let n = b.len() as int; lemma_chars_le(b, 0, n); lemma_line_start_le(b, n); lemma_chars_le(b, line_start(b, n), n);\n"
+               "            lemma_chars_sub(b, line_start(b, n), n, line_start(b, n), n); }")
+    add(e, "Token::end_column")
+    vf.raw("}", "impl")
     text = vf.finish()
     # the loop is created by rule O9-loop, so its invariant and ghost code are attached to the rewritten text by anchor
     text = text.replace("    for vp_i in 0..vp_m.len() {\n", "    for vp_i in 0..vp_m.len()" + INV + "    {\n" + GHOST_TOP, 1)
     text = text.replace("        ret.push(token);\n", GHOST_PUSH + "        ret.push(token);\n", 1)
     res.clauses.update({
+        "Token::end_line": "ensures r == line + #newlines in the token text",
+        "Token::end_column": "ensures r == chars of the text's last line if the text contains a newline, else column + chars - 1 (character column of the last character)",
         "split_comment_token": "requires positions fit u32 (file < 2^31 bytes); ensures for the k-th regex match (s,e): line == T.line + #'\\n' in text[..s]; "
                                "column == 1 + chars after the last '\\n' in text[..s] (or T.column + chars of text[..s] if none); length == e-s; pos == T.pos + s; source unchanged; tokens in match order",
     })
     res.samples.append({"obligation": "verus:tokpos:split_comment_token", "contract": POST.strip()})
     return [VerusJob("tokpos", text, vf, ["split_comment_token", "lemma_count_nl_split", "lemma_chars_split", "lemma_count_nl_sub", "lemma_chars_sub",
-                                           "lemma_chars_le", "lemma_line_start_sub", "lemma_line_start_prefix", "lemma_count_prefix", "lemma_line_start_le"],
+                                           "lemma_chars_le", "lemma_line_start_sub", "lemma_line_start_prefix", "lemma_count_prefix", "lemma_line_start_le", "Token::end_line", "Token::end_column"],
                      canaries=CANARIES, items=items, trusted=TRUSTED, rlimit=60)]
 
 
